@@ -374,7 +374,7 @@ func allParamNames(f *ssa.Function) map[ssa.Value]string {
 
 func checkC10(c *Ctx) {
 	c.Decided = append(c.Decided,
-		"G-C10-verify: Verify rejects unhandled critical extensions, an invalid leaf, a host-name mismatch (when a name is requested), an unbuildable chain and chains without the requested key usage; the only ways to a successful return pass these checks",
+		"G-C10-verify: Verify rejects unhandled critical extensions, an invalid leaf, a host-name mismatch (when a name is requested), an unbuildable chain and chains without the requested key usage; the only ways to a successful return pass these checks; checkChainForKeyUsage tests UnknownExtKeyUsage; a return of buildChains/Verify with a non-empty chains result carries a nil error",
 		"G-C10-isvalid: isValid rejects issuer/subject mismatch with the child, a verification time outside [NotBefore, NotAfter], a name outside the permitted DNS domains, a non-CA intermediate and an exceeded path length; operators and operands checked on the canonical conditions",
 		"G-C10-parents: a certificate enters a chain only after CheckSignatureFrom == nil (findVerifiedParents) and isValid == nil with the right certificate type (buildChains, both loops); chains are extended on fresh copies",
 		"G-C10-candidates: findVerifiedParents tries the certificates indexed under the child's issuer name whenever the subject-key-id index gives none (completeness of chain building at the candidate-selection step; path enumeration with the ranged value resolved through the phis of each path)",
@@ -388,6 +388,7 @@ func checkC10(c *Ctx) {
 	c10IsValid(c)
 	c10Verify(c)
 	c10BuildChains(c)
+	c10ChainsNoError(c)
 	c10SigFrom(c)
 	c10Host(c)
 	c10PoolContains(c)
@@ -944,4 +945,194 @@ func c10PoolContains(c *Ctx) {
 	spec := resultSpec{0, "bool"}
 	r, _ := canReachSuccess(f.Blocks[0], nil, successExits(f, spec), cut)
 	c.Check(nEq > 0 && !r, rule, fname(f), "answers true only when a pool entry Equals the certificate", "", "CertPool.contains can return true without Certificate.Equal having matched a pool entry (it compares less than the whole certificate): a certificate that merely shares a root's name and key is treated as that root, and distinct cross-certificates are dropped as duplicates", f.Pos())
+}
+
+type leafVia struct {
+	v   ssa.Value
+	via *ssa.BasicBlock // the block the value was in when it entered the first join on its way (or the use block)
+	to  *ssa.BasicBlock // the block of that join (nil when used directly)
+}
+
+// leafValuesUnder: the values that can flow into v through joins whose incoming edges are feasible under the
+// assumptions in force (blocks in live, edges not in dead)
+func leafValuesUnder(v ssa.Value, at, to *ssa.BasicBlock, live map[*ssa.BasicBlock]bool, dead map[edge]bool, seen map[ssa.Value]bool, out *[]leafVia) {
+	if seen[v] {
+		return
+	}
+	seen[v] = true
+	if phi, ok := v.(*ssa.Phi); ok {
+		for i, e := range phi.Edges {
+			pred := phi.Block().Preds[i]
+			if !live[pred] || dead[edge{pred, phi.Block()}] {
+				continue
+			}
+			leafValuesUnder(e, pred, phi.Block(), live, dead, seen, out)
+		}
+		return
+	}
+	*out = append(*out, leafVia{v, at, to})
+}
+
+// nilKnownAt: v is the nil constant, or blk lies behind the nil edge of a test of v against nil
+func nilKnownAt(f *ssa.Function, v ssa.Value, blk, to *ssa.BasicBlock) bool {
+	if isNilConst(v) {
+		return true
+	}
+	for _, ifi := range ifsOf(f) {
+		bo, ok := ifi.Cond.(*ssa.BinOp)
+		if !ok || !((bo.X == v && isNilConst(bo.Y)) || (bo.Y == v && isNilConst(bo.X))) {
+			continue
+		}
+		var t *ssa.BasicBlock
+		switch bo.Op {
+		case token.NEQ:
+			t = ifi.Block().Succs[1]
+		case token.EQL:
+			t = ifi.Block().Succs[0]
+		default:
+			continue
+		}
+		if len(t.Preds) == 1 && (t == blk || t.Dominates(blk)) {
+			return true
+		}
+		// the value enters the join over the nil edge itself
+		if to != nil && ifi.Block() == blk && t == to && ifi.Block().Succs[0] != ifi.Block().Succs[1] {
+			return true
+		}
+	}
+	return false
+}
+
+// c10ChainsNoError: a chain that verifies is reported without an error. For every return of buildChains / Verify whose
+// first result is not the nil constant: assuming that result is non-empty (interval on its length), the return is either
+// unreachable or every value that can flow into its error result over feasible edges is the nil constant. (Returning
+// the chains found together with the error of the last candidate that failed makes callers reject a valid peer.)
+func c10ChainsNoError(c *Ctx) {
+	rule := "G-C10-verify"
+	for _, name := range []string{"(*Certificate).buildChains", "(*Certificate).Verify"} {
+		f := c.Fn("x509", name)
+		if f == nil {
+			c.Missing(rule, "x509."+name, "method", "not found")
+			continue
+		}
+		ci := newCondIndex(f, allParamNames(f))
+		n := 0
+		bad := token.NoPos
+		for _, b := range f.Blocks {
+			ret, ok := b.Instrs[len(b.Instrs)-1].(*ssa.Return)
+			if !ok || len(ret.Results) != 2 || isNilConst(ret.Results[0]) {
+				continue
+			}
+			n++
+			withLenAtLeast(ret.Results[0], 1, func() {
+				dead := deadEdges(f)
+				live := reach([]*ssa.BasicBlock{f.Blocks[0]}, dead)
+				// edges ruled out by the assumption itself
+				for _, ifi := range ifsOf(f) {
+					if condEval == nil {
+						break
+					}
+					if r, known := condEval(ifi.Cond); known {
+						bb := ifi.Block()
+						if r {
+							dead[edge{bb, bb.Succs[1]}] = true
+						} else {
+							dead[edge{bb, bb.Succs[0]}] = true
+						}
+					}
+				}
+				if !live[b] {
+					return
+				}
+				var leaves []leafVia
+				leafValuesUnder(ret.Results[1], b, nil, live, dead, map[ssa.Value]bool{}, &leaves)
+				for _, l := range leaves {
+					if !nilKnownAt(f, l.v, l.via, l.to) {
+						bad = ret.Pos()
+					}
+				}
+			})
+		}
+		c.Evals += n * len(ci.conds)
+		if n == 0 {
+			c.Undecided(rule, fname(f), "chains found are reported without an error", "no return with a non-constant chains result", f.Pos())
+			continue
+		}
+		c.Check(bad == token.NoPos, rule, fname(f), "chains found are reported without an error", fmt.Sprintf("%d return(s): with a non-empty chains result only nil can flow into the error result", n),
+			"a return can carry a non-empty list of chains together with a non-nil error (the error of a candidate that failed): callers treat the certificate as invalid although a valid chain exists", bad)
+	}
+}
+
+// withLenAtLeast: while fn runs, every comparison of len(target) — target identified as an SSA value, so joins need no
+// stable name — with an integer constant is decided whenever len(target) >= lo decides it
+func withLenAtLeast(target ssa.Value, lo int64, fn func()) {
+	saved := condEval
+	defer func() { condEval = saved }()
+	isLen := func(v ssa.Value) bool {
+		call, ok := v.(*ssa.Call)
+		if !ok {
+			return false
+		}
+		bi, ok := call.Call.Value.(*ssa.Builtin)
+		return ok && bi.Name() == "len" && call.Call.Args[0] == target
+	}
+	condEval = func(v ssa.Value) (bool, bool) {
+		bo, ok := v.(*ssa.BinOp)
+		if !ok {
+			if saved != nil {
+				return saved(v)
+			}
+			return false, false
+		}
+		op := bo.Op
+		var k int64
+		if kk, isK := constInt(bo.Y); isK && isLen(bo.X) {
+			k = kk
+		} else if kk, isK := constInt(bo.X); isK && isLen(bo.Y) {
+			k = kk
+			switch op {
+			case token.LSS:
+				op = token.GTR
+			case token.LEQ:
+				op = token.GEQ
+			case token.GTR:
+				op = token.LSS
+			case token.GEQ:
+				op = token.LEQ
+			}
+		} else {
+			if saved != nil {
+				return saved(v)
+			}
+			return false, false
+		}
+		switch op {
+		case token.EQL:
+			if k < lo {
+				return false, true
+			}
+		case token.NEQ:
+			if k < lo {
+				return true, true
+			}
+		case token.LSS: // len < k
+			if lo >= k {
+				return false, true
+			}
+		case token.LEQ:
+			if lo > k {
+				return false, true
+			}
+		case token.GTR: // len > k
+			if lo > k {
+				return true, true
+			}
+		case token.GEQ:
+			if lo >= k {
+				return true, true
+			}
+		}
+		return false, false
+	}
+	fn()
 }
